@@ -31,6 +31,7 @@ class _NoInstr:
     def __init__(self):
         self.events = []
         self.stages = []
+        self.wrapper_errors = []
 
 
 def run_one(case):
